@@ -123,8 +123,9 @@ func orderHash(kinds []string, order []int) string {
 
 func runC09(b *mon.B) {
 	r := gen.New(uint64(b.Seed), 0xC09, uint64(b.Index))
-	sc := richConfig(r, 1)
+	sc := richConfig(r, 2) // two scopes with the same users: 10.0/16 under one key, 10.1/16 under another
 	key := []byte(sc.Scopes[0].Key)
+	key1 := []byte(sc.Scopes[1].Key)
 	soloRef, err := refsrv.Start(sc.Cfg, refsrv.Options{Keys: sc.Keys, ViaYAML: true})
 	if err != nil {
 		b.Inconclusive("configuration did not load: %v", err)
@@ -227,7 +228,13 @@ func runC09(b *mon.B) {
 				wg.Add(1)
 				go func(i int) {
 					defer wg.Done()
-					t, ok := c09Solo(muxRef, key, (base+i+1)%60000+1, sids[i], recs[i])
+					// odd scripts connect from the second scope (its own key): connections that are
+					// set up at the same instant are bound each by its own address
+					k, at := key, (base+i+1)%60000+1
+					if i%2 == 1 {
+						k, at = key1, 1<<16|at
+					}
+					t, ok := c09Solo(muxRef, k, at, sids[i], recs[i])
 					mu.Lock()
 					got[i] = t
 					okAll = okAll && ok
